@@ -21,7 +21,7 @@ CHECKS["C06"] = {
     "technique": T_EXH,
 }
 CHECKS["C02"] = {
-    "text": "All filter expressions with <=2 units over 27 atoms x 4 unit forms (x, !x, (x), !(x)), <=3 units over a 16-unit subset (<=4 over 8 in thorough), joined by &&/|| under every parenthesisation/negation of sub-groups, are generated as text, parsed by the reference parser (which alone decides precedence and grouping) and run through the real find() on array and object documents whose children cover every JSON kind (0, false, \"\", null, [], {} included), below $.k, under a descendant segment, inside a nested filter (checks $ scoping), in multi-selector segments and on scalar roots. 153 036 expressions / 9.9 M (expression, child) evaluations in quick.",
+    "text": "All filter expressions with <=2 units over 27 atoms x 4 unit forms (x, !x, (x), !(x)), <=3 units over a 16-unit subset (<=4 over 8 in thorough), joined by &&/|| under every parenthesisation/negation of sub-groups, are generated as text, parsed by the reference parser (which alone decides precedence and grouping) and run through the real find() on array and object documents whose children cover every JSON kind (0, false, \"\", null, [], {} included), below $.k, under a descendant segment, inside a nested filter (checks $ scoping), in multi-selector segments, on a value whose containers are shared between several paths, and on scalar roots. 153 036 expressions / 9.9 M (expression, child) evaluations in quick.",
     "ref": "DESIGN.md section 5, C02",
     "note": "Trusted: R2 parser (cross-checked against the ABNF engine R1) and R3 evaluator; match/search atoms use literal patterns only.",
     "technique": T_EXH,
@@ -39,7 +39,7 @@ CHECKS["C04"] = {
     "technique": T_EXH,
 }
 CHECKS["C05"] = {
-    "text": "A finite product is enumerated completely: 39 probe functions (every signature {V,L,N}^n -> {V,L,N}, n<=2) + the 5 built-ins + an unknown name, each in 14 syntactic positions (test, under !, inside &&/||, in parentheses, either comparand, argument of a V/L/N parameter, inside nested filters) with 21 argument shapes per parameter; wrong arities; 400 operand pairs x 2 comparison operators; integers at bound-1/bound/bound+1 of three configured ranges in 14 index/slice slots. compile() on an environment holding the probe registry must succeed exactly when the reference typing judgement says so, must raise a JSONPathError otherwise, and must never call a registered function. 186 538 queries per run.",
+    "text": "A finite product is enumerated completely: 39 probe functions (every signature {V,L,N}^n -> {V,L,N}, n<=2) + the 5 built-ins + an unknown name, each in 14 syntactic positions (test, under !, inside &&/||, in parentheses, either comparand, argument of a V/L/N parameter, inside nested filters) with 21 argument shapes per parameter; wrong arities; 400 operand pairs x 2 comparison operators; integers at bound-1/bound/bound+1 (and the negated bounds) of 12 configured ranges (symmetric, asymmetric, one-sided, three reaching beyond 2**53; configured on a subclass and on a plain instance) in 14 index/slice slots. compile() on an environment holding the probe registry must succeed exactly when the reference typing judgement says so, must raise a JSONPathError otherwise, and must never call a registered function. 186 538 queries per run.",
     "ref": "DESIGN.md section 5, C05",
     "note": "Trusted: mc/ref/typing.py (RFC 2.4.3) checked against the RFC well-typedness table in the self-test; R1 re-checks grammar membership of every reported query.",
     "technique": T_EXH,
@@ -81,19 +81,19 @@ CHECKS["C11"] = {
     "technique": T_EXH,
 }
 CHECKS["C12"] = {
-    "text": "(A) every Boolean expression tree with <=4 leaves over independent atoms (test or comparison), every &&/|| assignment, every subset of negated nodes, minimal and full parenthesisation (38 000 expressions quick, 168 000 thorough) on an 81-child truth-table document: str() must be a valid query, compile, be idempotent and select the same nodes. (B) corpus queries, all 432 slice shapes, 1 620 number spellings, names/literals over 30 000 BMP code points (all in thorough) and all <=3-character names over 13 special characters: same oracle plus canonical single-quoted literals.",
+    "text": "(A) every Boolean expression tree with <=4 leaves over independent atoms (test or comparison), every &&/|| assignment, every subset of negated nodes, minimal and full parenthesisation (38 000 expressions quick, 168 000 thorough) on an 81-child truth-table document: str() must be a valid query, compile, be idempotent and select the same nodes; trees with <=3 leaves also before / after another selector of the same segment and inside a nested filter. (B) corpus queries, all 432 slice shapes, 1 620 number spellings, names/literals over 30 000 BMP code points (all in thorough) and all <=3-character names over 13 special characters (single- and double-quoted spelling): same oracle plus canonical single-quoted literals.",
     "ref": "DESIGN.md section 5, C12",
     "note": "Semantic equality is decided on a complete truth table (A) or dedicated documents (B), not on all JSON values. Purely associative regroupings ((a&&b)&&c vs a&&(b&&c)) are not observable and not flagged.",
     "technique": T_EXH,
 }
 CHECKS["C17"] = {
-    "text": "Stateless exploration of the real evaluator's complete tree of random choices: the name `random` inside jsonpath_rfc9535.segments/.selectors is rebound to an enumerating chooser (depth-first, prefix replay, one real find() per leaf; sample() outcomes enumerated up to object identity). Inputs: 12 queries x all 9 905 JSON trees with <=5 nodes (98 245 with <=6 in thorough), 4 descendant queries x all array-only container skeletons with <=7 (8) nodes, and the repository's 10 nondeterminism cases. Validity: every leaf result is in the reference model's permitted set. Exhaustiveness: the union of leaf results equals that set. 3.8 M executions in quick.",
+    "text": "Stateless exploration of the real evaluator's complete tree of random choices: the name `random` inside jsonpath_rfc9535.segments/.selectors is rebound to an enumerating chooser (depth-first, prefix replay, one real find() per leaf; sample() outcomes enumerated up to object identity). Inputs: 12 queries x all 9 905 JSON trees with <=5 nodes (98 245 with <=6 in thorough), 4 descendant queries x all array-only container skeletons with <=7 (8) nodes, wide and duplicate-reaching documents (also with a filter nested in a filter before a shuffled selector), and the repository's 10 nondeterminism cases; the flag switched on by subclassing, on a plain instance before / after compiling, and after other environments of the same class compiled the same text. Validity: every leaf result is in the reference model's permitted set. Exhaustiveness: the union of leaf results equals that set. 3.8 M executions in quick.",
     "ref": "DESIGN.md section 5, C17",
     "note": "Assumes all randomness flows through the module-level name `random` of the two modules (a replayed prefix meeting a different arity is a hard error).",
     "technique": "stateless exploration of the choice tree of the real code (enumerating random source), exact set comparison with reference model",
 }
 CHECKS["C18"] = {
-    "text": "Limits 1..5 x both modes x every container skeleton with <=6 (7) containers in 3 container and 2 leaf flavours; chains at nesting limit-1..limit+2 for limits 1..5, 100, 200 with array/object/alternating links, scalar/empty bottoms and the deep branch alone/first/middle/last; 12 cyclic structures (self-loops, 2-/3-cycles, cycles below a prefix, branching cycles for limits <=4). Deterministic mode: one execution per input; nondeterministic mode: the complete choice tree for limits <=4 (5) (capped at 3 000 / 20 000 executions per input, cap hits are reported) and all leaves within 1 (2) deviations above. nesting <= limit => the reference result; otherwise JSONPathRecursionError within a 5 s watchdog and a 200 000-node budget, never RecursionError.",
+    "text": "Limits 1..5 x both modes x every container skeleton with <=6 (7) containers in 3 container and 2 leaf flavours; chains at nesting limit-1..limit+2 for limits 1..5, 100, 200 with array/object/alternating links, scalar/empty bottoms and the deep branch alone/first/middle/last; 12 cyclic structures (self-loops, 2-/3-cycles, cycles below a prefix, branching cycles for limits <=4). Deterministic mode: one execution per input; nondeterministic mode: the complete choice tree for limits <=4 (5) (capped at 3 000 / 20 000 executions per input, cap hits are reported) and all leaves within 1 (2) deviations above. nesting <= limit => the reference result; otherwise JSONPathRecursionError within a 5 s watchdog and a 200 000-node budget, never RecursionError. Histories: every sequence of <=3 applications (complete run at the limit / too deep / cyclic / shallow, find_one, iterator abandoned after 1 or 3 items) of ONE compiled query, 4 queries x 3 (6) limits x both modes: every complete run must behave like that of a fresh query.",
     "ref": "DESIGN.md section 5, C18",
     "note": "Limits above 200 are not explored (the deterministic visitor recurses ~2 Python frames per level; configured limits of several hundred reach the interpreter's own limit - recorded in DESIGN.md as out of the explored range). Branching cycles only for small limits.",
     "technique": "bounded-exhaustive enumeration of shapes x limits; choice-tree exploration of the real code in nondeterministic mode (deviation-bounded for large limits)",
@@ -105,7 +105,7 @@ CHECKS["C14"] = {
     "technique": "explicit-state enumeration of operation histories on the real package (fresh import per history) against a reference model",
 }
 CHECKS["C15"] = {
-    "text": "702 structural queries (depth<=2 over the 26-segment alphabet), 529 filter queries, 60 invalid queries (every error class) and deep-document cases x all JSON trees with <=2 (quick) / <=3 (thorough) nodes, 47 kinds and deep documents x 14 call paths (module-level and environment find / finditer / find_one / compile().find / apply / finditer / find_one). All paths must give the same [(location, value identity)] list, find_one its first element or None, and the same exception class on failure. 1.7 M path executions in quick.",
+    "text": "702 structural queries (depth<=2 over the 26-segment alphabet), 529 filter queries, 60 invalid queries (every error class) and deep-document cases x all JSON trees with <=2 (quick) / <=3 (thorough) nodes, 47 kinds and deep documents x 14 call paths (module-level and environment find / finditer / find_one / compile().find / apply / finditer / find_one). All paths must give the same [(location, value identity)] list, find_one its first element or None, and the same exception class on failure. 18 stack-exhaustion cases (queries of 300 / 3 000 / 6 000 segments, documents nested 300 / 3 000 levels under a raised max_recursion_depth) must complete, or fail with the same exception class, on every path. 2.1 M path executions in quick.",
     "ref": "DESIGN.md section 5, C15",
     "note": "Differential oracle between entry points (agreement with RFC semantics is C01/C02). find_one on an evaluation-time recursion error may legitimately return the first node (lazy).",
     "technique": "bounded-exhaustive differential enumeration over queries x documents x entry points",
@@ -117,7 +117,7 @@ CHECKS["C16"] = {
     "technique": "stateless exploration of schedules of the real code: all next() interleavings; controlled-scheduler thread exploration with iterative preemption bounding",
 }
 CHECKS["C20"] = {
-    "text": "Full product of 32 option sets (-q/-r, -f/stdin, stdout/-o, --pretty, --debug) x 13 queries (valid structural/filter/non-ASCII, syntax, type, name, index, overflow, lexer errors) x 14 documents (small, non-ASCII, nesting 150, invalid JSON at three positions, empty, non-UTF-8) = 5 824 runs driven in-process through cli.main() with patched argv/stdio; expected output computed from find().values(). 48 cases are replayed through real `python -m jsonpath_rfc9535` subprocesses and must match the in-process observation (exit status, stdout, stderr, output file).",
+    "text": "Full product of 32 option sets (-q/-r, -f/stdin, stdout/-o, --pretty, --debug) x 28 queries (valid structural/filter/comparison/non-ASCII, syntax, type, name, index, overflow, lexer errors, line breaks, padding) x 20 documents (small, non-ASCII, lone surrogates, comparison kinds, nesting 150, invalid JSON at three positions, empty, non-UTF-8, BOM / UTF-16 / UTF-32) plus the invalid-query corpus = 18 268 runs driven in-process through cli.main() with patched argv/stdio; expected output computed from find().values(). 48 cases are replayed through real `python -m jsonpath_rfc9535` subprocesses and must match the in-process observation (exit status, stdout, stderr, output file).",
     "ref": "DESIGN.md section 5, C20",
     "note": "In-process driving is validated against real subprocesses on a fixed subset in every run.",
     "technique": "bounded-exhaustive enumeration of option sets x inputs, harness conformance-checked against the real process",
